@@ -188,6 +188,18 @@ struct C16 : Scenario {
 			if (fill) { p.seti("prefix_fill", (int64_t) fill); p.seti("prefix_seed", (int64_t) rng.below(1000000)); }
 			Bytes pa(tail);
 			for (auto &b : pa) b = rng.byte();
+			if (rng.chance(1, 3)) {
+				// near misses: text that resembles a self-extractor marker or a method signature without being one
+				// (another version number, a marker cut short, a signature with a wrong frame)
+				static const char *near[] = {"LhASFX V1.3,", "LhASFX V2.0 ", "LhASFX V1.2 ", "LhASFX ", "LHA-SF", "LHA-SFY", "LHA_SFX", "lha-sfx", "LHA-SF\0X",
+				                             "-lh5", "lh5-", "-Lh5-", "-l5-", "-lh55-", "-pn1-", "_lh0-", "-p m-", "-pm", "LhASFX V1.2;"};
+				int nn = 1 + (int) rng.below(3);
+				for (int k = 0; k < nn; ++k) {
+					std::string s = near[rng.below(19)];
+					if (s.size() < tail) memcpy(&pa[rng.below(tail - s.size())], s.data(), s.size());
+				}
+				p.sets("near_miss", "1");
+			}
 			append(pa, a0.bytes);
 			scrub(pa, 0, tail, rng);
 			p.prefix.assign(pa.begin(), pa.begin() + tail);
@@ -307,6 +319,7 @@ struct C16 : Scenario {
 		res.ops = evals;
 		res.nontrivial = !r0.H.empty() && (plen > 0 || base.trunc >= 0 || r0.H.size() >= 2);
 		if (plen) count("kind.prefix." + p.gets("prefix_kind", "random"));
+		if (p.gets("near_miss") == "1") count("kind.prefix.near_miss_marker_or_signature");
 		if (plen <= 64) count(strf("probe.prefix_len_%02zu", plen));
 		if (plen > 200000) count("probe.prefix_near_256k");
 		if (base.trunc >= 0) count("probe.truncated_archive");
@@ -406,6 +419,8 @@ struct C13 : Scenario {
 			for (auto &m : p.members)
 				if (m.kind == 'f' && rng.chance(1, 2)) {
 					FsEnt e; e.type = 'f'; e.path = "/w/x/y/root/" + m.gpath + m.gname; e.data = to_bytes("old"); e.mode = 0644; e.uid = e.gid = 0;
+					// sometimes a directory is in the way instead: it can be neither unlinked nor opened
+					if (rng.chance(1, 4)) { e.type = 'd'; e.mode = 0755; e.data.clear(); }
 					p.fs.push_back(e);
 				}
 			static const char *scripts[] = {"", "y\n", "n\n", "x\n", "\n", "a", "zz\nzz\n", "y\ny\n", "s"};
@@ -664,8 +679,17 @@ struct C13 : Scenario {
 				Task u = t;
 				Fnv h; h.u64(p.run); h.u64((uint64_t) k); h.u64((uint64_t) e);
 				u.errat = (int64_t)(h.h % (L + 1));
+				// lasting errors (EIO) and transient ones (a read interrupted once, EINTR / EAGAIN, after which the source goes on)
+				if (e & 1) { u.erronce = 1; u.errerrno = (e & 2) ? 11 : 4; }
 				++evals;
 				if (!eval(p, arch, u, res, narrowed, fired)) break;
+			}
+			// the interrupted read right at the end of input: nothing follows it
+			if (res.ok) {
+				Task u = t;
+				u.errat = (int64_t) L; u.erronce = 1; u.errerrno = 4;
+				++evals;
+				eval(p, arch, u, res, narrowed, fired);
 			}
 			for (int s = 0; s < 3 && res.ok; ++s) {
 				Task u = t;
